@@ -1,10 +1,63 @@
 /-
   EG.Driver.Color — model side of the `color.*` correspondence streams (harness/src/m_color.rs).
+
+    color.types                 -> name:kind:bpp:storagebits:nbytes:maxr:maxg:maxb;... sorted by name
+    color.new  <Type> r g b     -> c=<raw> ch=<r>,<g>,<b> st=<into_storage> be=<bytes> le=<bytes>
+    color.gray <Type> l         -> c=<raw> ch=<luma> st=.. be=.. le=..
+    color.raw  <Type> v         -> in=<Raw::from_u32(v)> c=<raw of C::from(raw)> ch=<channels> st=.. be=.. le=..
 -/
 import EG.Driver.Util
+import EG.Generated.ColorTable
 namespace EG.Driver
-open EG
+open EG EG.Generated
 
-def handleColor (_stream : String) (_t : Toks) : Option String := none
+def findColor (name : String) : Option ColorSpec := colorTable.find? (fun s => s.name == name)
+
+def kindCode : ColorKind → Nat
+  | .binary => 0 | .gray => 1 | .rgb => 2 | .bgr => 3
+
+def typeLine (s : ColorSpec) : String :=
+  let (mr, mg, mb) :=
+    if s.isRgb then (s.maxR, s.maxG, s.maxB) else (0, 0, 0)
+  s!"{s.name}:{kindCode s.kind}:{s.rawBpp}:{s.rawStorageBits}:{s.nbytes}:{mr}:{mg}:{mb}"
+
+/-- channels of a colour value as the public accessors return them -/
+def channelsOf (s : ColorSpec) (c : Nat) : List Nat :=
+  match s.kind with
+  | .binary => [if c = 1 then 1 else 0]
+  | .gray => [s.luma c]
+  | _ => [s.chanR c, s.chanG c, s.chanB c]
+
+def viewsOf (s : ColorSpec) (c : Nat) : String :=
+  s!"c={s.toRaw c} ch={fmtNats (channelsOf s c)} st={s.intoStorage c} be={fmtNats (s.toBeBytes c)} le={fmtNats (s.toLeBytes c)}"
+
+def handleColor (stream : String) (t : Toks) : Option String :=
+  match stream with
+  | "color.types" =>
+    let names := (colorTable.map typeLine).mergeSort (fun a b => decide (a ≤ b))
+    some (joinOr ";" names)
+  | "color.new" =>
+    let (n, t) := t.str
+    let (r, t) := t.nat
+    let (g, t) := t.nat
+    let (b, _) := t.nat
+    match findColor n with
+    | some s => if s.isRgb then some (viewsOf s (s.rgbNew r g b)) else none
+    | none => none
+  | "color.gray" =>
+    let (n, t) := t.str
+    let (l, _) := t.nat
+    match findColor n with
+    | some s => if s.kind == .gray then some (viewsOf s (s.grayNew l)) else none
+    | none => none
+  | "color.raw" =>
+    let (n, t) := t.str
+    let (v, _) := t.nat
+    match findColor n with
+    | some s =>
+      let raw := s.rawFromU32 v
+      some s!"in={raw} {viewsOf s (s.fromRaw raw)}"
+    | none => none
+  | _ => none
 
 end EG.Driver
